@@ -155,6 +155,7 @@ def m_char_class(ex, f, a):
     if op == 'is_ascii_hexdigit': return zor(digit(), rng(65, 70), rng(97, 102))
     if op == 'is_ascii_whitespace': return zor(*[(c == x) for x in (32, 9, 10, 12, 13)])
     if op == 'len_utf8': return utf8_len_char(ex, c)
+    if op == 'is_control': return zor(rng(0, 31), rng(127, 159))      # general category Cc is exactly U+0000..U+001F and U+007F..U+009F
     if sym:
         # unicode predicates: decide on ASCII exactly, otherwise inconclusive
         if ex.feasible(c >= 128): raise Unsupported('unicode class %s on symbolic non-ASCII char' % op)
